@@ -45,7 +45,9 @@ func checkC08Run(t *testing.T, sc *Scenario, rec *Recorder) []Diff {
 		}
 	}
 	cancelled := sc.CancelAtUs > 0 && us(sc.CancelAtUs) < o.Elapsed+time.Nanosecond
-	if o.Wire.Overrun {
+	if o.Wire.Spin {
+		ds = append(ds, Diff{"C08", "busy-loop", fmt.Sprintf("%s run made > 300000 I/O calls without the virtual clock advancing (a retry loop that can never make progress); stopped by the harness watchdog", sc.Variant)})
+	} else if o.Wire.Overrun {
 		ds = append(ds, Diff{"C08", "run-never-ends", fmt.Sprintf("%s run was still going after %v of virtual time (bound %v): stopped by the harness watchdog", sc.Variant, o.Wire.MaxVirtual, bound)})
 	} else if o.Elapsed > bound {
 		ds = append(ds, Diff{"C08", "run-exceeds-bound", fmt.Sprintf("%s run took %v of virtual time, bound from its parameters is %v (timeout %v, delay %v x %d probes, poll %v)", sc.Variant, o.Elapsed, bound, sc.Timeout(), sc.Delay(), sc.MaxTTL-sc.MinTTL+1, sc.Poll())})
@@ -87,6 +89,13 @@ func TestC08Runs(t *testing.T) {
 		}
 		if oneOf(rt, "silent_world", false, true) {
 			sc.Script = FlowScript{Default: HopSpec{Silent: true}}
+		}
+		if sc.Variant == "sack" && oneOf(rt, "handshake_trouble", false, false, true) {
+			// the handshake is never shown to the capture handle, or only near misses are: bounded by 500 ms
+			sc.Sack.NoSynAck = true
+			for i := 0; i < rapid.IntRange(0, 4).Draw(rt, "n_near_miss"); i++ {
+				sc.Sack.ExtraSynAcks = append(sc.Sack.ExtraSynAcks, SynAckNoise{Kind: oneOf(rt, fmt.Sprintf("near%d", i), "wrong-sport", "wrong-dport", "wrong-src", "wrong-dst", "not-synack")})
+			}
 		}
 		if (sc.Variant == "icmp4" || sc.Variant == "icmp6" || sc.Variant == "sack") && rapid.Bool().Draw(rt, "cancel") {
 			total := sc.Timeout() + time.Duration(sc.MaxTTL-sc.MinTTL+1)*sc.Delay()
